@@ -414,6 +414,14 @@ def run(ctx):
         p = os.path.join(tmp, "A.java" if lang == "JAVA" else "prog" + EXT[lang])
         obs.write(p, PROG[lang])
         progs.append((p, lang, "prog"))
+    # small programs in which the file ends with each kind of construct, WITHOUT a final line break: every single-option
+    # configuration meets them (a function that the end of the file closes was refused under indent_func_def_force_col1)
+    tails = {"tail_func.c": "int tf(int a)\n{\n    return a;\n}", "tail_decl.c": "int td;\nint te = 1;", "tail_struct.c": "struct ts { int a; };\nenum tn { TA, TB };",
+             "tail_cmt.c": "int tc; /* c */\n/* last */", "tail_pp.c": "#define TP 1\nint tq;\n#undef TP", "tail_init.c": "int ti[] = {\n    1, 2\n};"}
+    for name, text in tails.items():
+        p = os.path.join(tmp, name)
+        obs.write(p, text)
+        progs.append((p, "C", "tail"))
     # only programs that compile are in the universe
     base = {}
     for p, lang, kind in progs:
@@ -450,6 +458,8 @@ def run(ctx):
         cfgs = list(core)
         if kind == "prog":
             cfgs += singles + randoms
+        elif kind == "tail":
+            cfgs += single_option_configs(unc, ctx.rng, None) + randoms[:10]
         else:
             mine = [c for c in singles if c[0].startswith("sp_" if kind == "expr" else ("mod_", "nl_"))]
             if quick:
